@@ -127,9 +127,25 @@ def b3_b4_cache(ck):
     ctb = TermBuilder(prog, cb)
     calls = live_calls(cb)
     fo = [t for bb, t in calls if callee_name(t) == AMAP + "::from_occupancy"]
-    ck.req(len(fo) == 1 and len(calls) <= 2, "B3.pure", cname.split("::")[-1], cb.where(), "the cache closure does more than one AttackMap::from_occupancy call: %s" % [callee_name(t).split("::")[-1] for bb, t in calls])
+    args = None
     if len(fo) == 1:
+        ck.req(len(calls) <= 2, "B3.pure", cname.split("::")[-1], cb.where(), "the cache closure does more than one AttackMap::from_occupancy call: %s" % [callee_name(t).split("::")[-1] for bb, t in calls])
         args = [resolve_upvars(prog, cb, ctb.operand(x))[0] for x in fo[0]["args"]]
+    elif not calls:
+        # second form: the value is computed in attack_map itself and the closure only hands it over: `cell.get_or_init(|| computed)`
+        crt = return_term(prog, cb)
+        ups = closure_upvar_terms(prog, am, cname, tb) or []
+        val = None
+        if crt is not None and crt[0] == "field" and crt[1] == ("param", 1) and crt[2].isdigit() and int(crt[2]) < len(ups):
+            val = ups[int(crt[2])]
+        fo_am = [t for bb, t in live_calls(am) if callee_name(t) == AMAP + "::from_occupancy"]
+        ok2 = val is not None and is_call(val, AMAP + "::from_occupancy") and len(fo_am) == 1
+        ck.req(ok2, "B3.pure", cname.split("::")[-1], cb.where(), "the cache closure neither computes AttackMap::from_occupancy nor hands over a value computed by it")
+        if ok2:
+            args = list(val[2])
+    else:
+        ck.fail("B3.pure", cname.split("::")[-1], cb.where(), "the cache closure does something other than one AttackMap::from_occupancy call: %s" % [callee_name(t).split("::")[-1] for bb, t in calls])
+    if args is not None:
         SELF, COLOR = ("param", 1), ("param", 2)
         want = [COLOR, ("field", SELF, "piece_occupancy"), ("field", SELF, "occupancy")]
         good = args[:3] == want and is_call(args[3], "Index<I>>::index") and args[3][2] == (("field", SELF, "colored_occupancy"), COLOR)
